@@ -643,3 +643,5 @@ SUBS = [
     Sub("conversions", lambda tier: conversion_cases(tier), check_conversions, quick=500, thorough=2000),
     Sub("dask", lambda tier: dask_cases(tier), check_dask, quick=160, thorough=800),
 ]
+
+RULE += ' Also: float32 containers against the float32 array, bin counts next to explicit edges, DataFrame accessors by column (weights by column name), null-containing weights (refused), dask h2 / h3 / column lists / column-split chunks / zero-length chunks / h1 of unevenly chunked 2-D dask arrays.'
